@@ -126,3 +126,5 @@ Definition distance_histogram_size (alpha : N) : N := N.min alpha HQ_DIST_HIST_C
 Definition hq_histogram_ok (hist_len alpha : N) : bool := distance_histogram_size alpha <=? hist_len.
 (* hasher types hasher_setup knows how to build *)
 Definition known_hasher (t : Z) : bool := existsb (Z.eqb t) [2; 3; 4; 5; 6; 9; 10; 40; 41; 42; 54]%Z.
+(* with the array length the source has now *)
+Definition hq_ok (alpha : N) : bool := hq_histogram_ok HQ_HIST_DIST_LEN alpha.
